@@ -31,7 +31,7 @@
    [c05_model_satisfies_spec_instance]. *)
 From Coq Require Import List NArith Bool.
 Import ListNotations.
-From AnySync Require Import Model.Acl Model.AclKeys Proofs.AclKeysBase Proofs.AclKeysStep Proofs.AclKeysInv Proofs.AclKeysView.
+From AnySync Require Import Model.Acl Model.AclKeys Proofs.AclKeysBase Proofs.AclKeysStep Proofs.AclKeysInv Proofs.AclKeysView Model.AclKeysTree Proofs.AclKeysTree.
 Open Scope N_scope.
 
 (* every honest history reaches a state satisfying the key invariant *)
@@ -206,3 +206,46 @@ Example c05_model_satisfies_spec_refuted :
   (let ms := run_hist (kinit 1 1 [1; 2]) ex_admit_remove in
    perm_of (m_s ms) 2 = 0 /\ derives (PA 2) (m_log ms) = [1] /\ keychanges (m_s ms) = [1; 2]).
 Proof. vm_compute. repeat split; reflexivity. Qed.
+
+(* (5) long-lived OPEN trees across a membership history (Model/AclKeysTree.v; the symbolic model has no per-tree key
+   cache: a change written under the ACL's current generation g is SEnc (treeKey (K g)) data labelled g) *)
+(* the ciphertext opens with the tree key of the NAMED generation and with no other generation of the history *)
+Theorem c05_open_ciphertext_under_named_key : forall gen idx tried,
+  NoDup tried -> In gen tried ->
+  filter (fun g => opens_with g (TSEnc gen idx) idx) tried = [gen].
+Proof. exact opens_exactly. Qed.
+Print Assumptions c05_open_ciphertext_under_named_key.
+
+(* a reader reads a change written under generation gen iff it holds gen *)
+Theorem c05_open_reads_iff_held : forall held gen idx,
+  readable held (idx, gen, TSEnc gen idx) = memN gen held.
+Proof. exact readable_written. Qed.
+Print Assumptions c05_open_reads_iff_held.
+
+(* over ANY sequence of rounds (any writers, any readers, any order of rotations) in which the current generation is
+   one of the known ones and every account holding a permission holds every generation named so far (that is
+   c05_members_have_all), what the model presents satisfies the property predicate and passes the correspondence test *)
+Theorem c05_open_model_satisfies_spec : forall l,
+  rounds_wf [] l ->
+  spec_C05_open (model_rounds [] l) = true /\ open_tree_model_ok (model_rounds [] l) = true.
+Proof. exact open_model_satisfies_spec_from_start. Qed.
+Print Assumptions c05_open_model_satisfies_spec.
+
+(* two rounds: owner 1 and writer 2 under generation 1; then 2 is removed (generation 5), 1 writes, 2 — who still
+   holds generation 1 — reads change 1 and not change 2 *)
+Example c05_open_nonvacuous :
+  let l := [mkRS 1 [1] [(1, 1)] [(1, 1, [1]); (2, 3, [1])];
+            mkRS 5 [1; 5] [(2, 1)] [(1, 1, [1; 5]); (2, 0, [1])]] in
+  rounds_wf [] l /\ spec_C05_open (model_rounds [] l) = true /\
+  map (fun r => (r_acct r, r_open_ok r, r_open_got r)) (rd_readers (nth 1 (model_rounds [] l) (mkRound [] [])))
+    = [(1, true, [1; 2]); (2, false, [1])].
+Proof.
+  cbv zeta. split; [|split; vm_compute; reflexivity].
+  cbn [rounds_wf rs_gen rs_tried rs_writes rs_readers written map app tc_idx fst snd].
+  repeat split; try (repeat constructor; cbn; intuition discriminate); try (cbn; tauto).
+  - intros x Hx Hp c Hc. cbn in Hx, Hc. destruct Hc as [<-|[]].
+    destruct Hx as [<-|[<-|[]]]; cbn; auto.
+  - intros x Hx Hp c Hc. cbn in Hx, Hc.
+    destruct Hx as [<-|[<-|[]]]; cbn in Hp |- *; [|exfalso; now apply Hp].
+    destruct Hc as [<-|[<-|[]]]; cbn; auto.
+Qed.
